@@ -158,6 +158,14 @@ func Call(t *Thread, f Value, args []Value, next Cont) error {
 	if f.IsNil() {
 		return errors.New("attempt to call a nil value")
 	}
+	// The call runs in a nested RunContinuation, so it uses Go stack: bound
+	// the nesting (e.g. a metamethod that triggers itself) with an ordinary
+	// error rather than an irrecoverable Go stack overflow.
+	t.luaReentryDepth++
+	defer func() { t.luaReentryDepth-- }()
+	if t.luaReentryDepth > maxGoFunctionCallDepth {
+		return errors.New("stack overflow")
+	}
 	callable, ok := f.TryCallable()
 	if ok {
 		return t.call(callable, args, next)
